@@ -232,11 +232,11 @@ def run(cx):
                 [i for i, x in enumerate(f_["rv"]["ops"]) if term_has_call(o.of_operand(x), "ServiceExt::oneshot")] == [idx] for f_ in futs)
         ob.require(ok, "do_handle/response-is-service-output", f"response written is {show(resp)[:120]}", co.path, co.loc(wr[0].bb))
 
-    with cx.ob("C02.6", "R-SIBLING", "request/response codecs agree on frame order and header types (C07.3 re-evaluated)") as ob:
+    with cx.ob("C02.6", "R-SIBLING", "request/response codecs agree on frame order and header types and transform nothing (C07.3 + C07.6 re-evaluated)") as ob:
         from . import c07
         sub = cx.__class__("C02", prog, cx.tier, cx.config, cx.tree, repo=cx.repo)
         c07.run(sub)
-        w = [x for x in sub.obs if x.oid.startswith("C07.3")]
+        w = [x for x in sub.obs if x.oid.startswith("C07.3") or x.oid == "C07.6"]
         ob.count(sum(x.evals for x in w))
         bad = [v for x in w for v in x.violations]
-        ob.require(len(w) == 4 and not bad, "codec-siblings", "codec sibling rules refuted: " + "; ".join(v.msg for v in bad)[:300], WIRE)
+        ob.require(len(w) == 5 and not bad, "codec-siblings", "codec sibling / closed-world rules refuted: " + "; ".join(v.msg for v in bad)[:300], WIRE)
